@@ -13,20 +13,20 @@ import (
 func init() { commands["engine-nlp"] = engineNLP }
 
 type nlpEv struct {
-	Op     string  `json:"op"`
-	Tr     int     `json:"tr"`
-	Q      string  `json:"q"`
-	Corpus string  `json:"corpus"`
-	NTok   int     `json:"ntok"`   // content words of the query (reference tokeniser, duplicates counted)
-	Off    []int   `json:"off"`    // documents returned with NLP off (limit >= database size, fuzzy off)
-	On     []int   `json:"on"`     // ... with NLP on
-	First4 []int   `json:"first4"` // documents matching one of the first four content words
-	OnCmp  []int   `json:"oncmp"`  // ranking of the NLP answer
-	UW     []int   `json:"uw"`     // the user's words in order (cleaned, lower case), interned
-	KW     []int   `json:"kw"`     // ProcessQuery(...).Keywords
-	Enh    []int   `json:"enh"`    // GetEnhancedKeywords()
-	Same   bool    `json:"same"`   // analysing the text again (same and fresh processor) gives the identical analysis
-	Panic  bool    `json:"panic"`
+	Op     string `json:"op"`
+	Tr     int    `json:"tr"`
+	Q      string `json:"q"`
+	Corpus string `json:"corpus"`
+	NTok   int    `json:"ntok"`   // content words of the query (reference tokeniser, duplicates counted)
+	Off    []int  `json:"off"`    // documents returned with NLP off (limit >= database size, fuzzy off)
+	On     []int  `json:"on"`     // ... with NLP on
+	First4 []int  `json:"first4"` // documents matching one of the first four content words
+	OnCmp  []int  `json:"oncmp"`  // ranking of the NLP answer
+	UW     []int  `json:"uw"`     // the user's words in order (cleaned, lower case), interned
+	KW     []int  `json:"kw"`     // ProcessQuery(...).Keywords
+	Enh    []int  `json:"enh"`    // GetEnhancedKeywords()
+	Same   bool   `json:"same"`   // analysing the text again (same and fresh processor) gives the identical analysis
+	Panic  bool   `json:"panic"`
 }
 
 func docsOf(c *corpusT, rs []database.SearchResult) []int {
